@@ -856,6 +856,12 @@ class Interp(object):
                 if unknown(i):
                     raise Unsupported('store at an unknown index')
                 o[self.hashable(i)] = v
+            elif isinstance(o, Inst) and not isinstance(t.slice, ast.Slice) and any(isinstance(b_, ast.Name) and b_.id == 'dict' for b_ in getattr(o.cls.node, 'bases', [])):
+                # an instance of a dict subclass that exposes its items as attributes (the Bunch recipe): c[name] = v is c.<name> = v
+                i = self.ev(t.slice, env)
+                if unknown(i) or not isinstance(i, str):
+                    raise Unsupported('store at an unknown key of a %s' % o.cls.node.name)
+                o.attrs[i] = v
             elif unknown(o) or isinstance(o, (Obj, Inst)) or isinstance(t.slice, ast.Slice):
                 pass
             else:
